@@ -515,8 +515,10 @@ def run_property(prop_id, tier, seed, only_clause=None, scale=1.0, procs=None):
         "violations": len(violations),
     }
     if only_clause is None:
-        os.makedirs(os.path.join(VERIF_DIR, "evidence"), exist_ok=True)
-        with open(os.path.join(VERIF_DIR, "evidence", "%s.json" % prop_id), "w") as f:
+        # (the sensitivity tools, which point the checks at scratch trees, divert their evidence)
+        edir = os.environ.get("HGXVERIF_EVIDENCE_DIR") or os.path.join(VERIF_DIR, "evidence")
+        os.makedirs(edir, exist_ok=True)
+        with open(os.path.join(edir, "%s.json" % prop_id), "w") as f:
             json.dump(evidence, f, indent=1, default=_json_default)
 
     if only_clause is None:
